@@ -406,7 +406,7 @@ func (c *Ctx) EnumSeqs(nsym, maxLen int, f func(l *Local, idx []int)) {
 	// exact shards first (simplest cases first), sequentially on one local
 	l0 := NewLocal()
 	for _, s := range exact {
-		if pl == maxLen && len(s.pre) == pl {
+		if len(s.pre) > maxLen || (len(s.pre) == pl && pl > 0) {
 			continue
 		}
 		f(l0, s.pre)
